@@ -127,6 +127,6 @@ theorem inv5_stepCasC {s s' : State} {t : Tid} {o : Ord} {loc : Loc} {exp new ob
         exact (queued_same (t := t) (by simp) (by intro u hu; simp [setFn, hu]) (by simp [heq, PC.scan?]) k).1 hk
       · intro o' ho; right; simp [PC.mtOld] at ho; rw [hw, ho]
       · intro k c' hl; simp [PC.limboC] at hl
-    · split <;> inv5_local t h heq
+    · inv5_local t h heq
 
 end NsyncVerif.MuC
